@@ -175,6 +175,9 @@ def lean_check(pid: str, extra_targets=()):
                build_s=round(time.time() - t0, 2), failed_decls=[])
     if rc != 0:
         res["failed_decls"] = sorted(set(re.findall(r"error: ([^\s:]+\.lean:\d+:\d+)", log)))
+        notes = sorted(set(re.findall(r"(?:GENERATED-MODEL )?TIE BROKEN[^\n]*", log)))
+        if notes:          # keep the names of the broken tie theorems at the very end of the excerpt the caller quotes
+            res["log"] = (res["log"] + "\n" + "\n".join(n[:400] for n in notes[:8]))[-6000:]
         return res
     audit = CACHE / f"Audit_{pid}.lean"
     audit.write_text(AUDIT_TMPL.format(pid=pid))
